@@ -326,7 +326,7 @@ def gen(ctx):
         # n - 70-like neighbours of the only bad scalar, random low window
         if i % 10 == 0:
             k = (N - 128 + r.below(128)) % R
-        C.add("pmulgen", [k], "pmulgen:" + ("near-n" if i % 10 == 0 else ("random" if i % 4 else "limbpattern")), cost=1300)
+        C.add("pmulgen", [k], "pmulgen:" + ("n-70" if k == N - 70 else ("near-n" if i % 10 == 0 else ("random" if i % 4 else "limbpattern"))), cost=1300)
     bases = [(G, "G", "norm"), (E.mul(2, G), "2G", "scaled"), (rpt(), "rand", "norm"), (rpt(), "rand", "scaled")]
     for (pt, nm_, kind) in bases:
         t = rep(pt, kind)
@@ -390,6 +390,19 @@ def eval_model(cases):
             for i, p_ in zip(b, parts):
                 out[i] = p_
     return out
+
+
+def rerun_silent(ctx, exe, lines, impl):
+    """A harness process that dies without any sanitizer diagnosis ("FAULT crash": killed from
+    outside, e.g. under memory pressure) says nothing about the library: the op is run once more
+    in a fresh process.  A deterministic crash recurs and is reported as before."""
+    idx = [i for i, a in enumerate(impl) if a == "FAULT crash"]
+    if idx:
+        again, _ = core.run_lines(exe, [lines[i] for i in idx], shards=1)
+        for i, a in zip(idx, again):
+            impl[i] = a
+        ctx.count("rerun-after-silent-process-death", len(idx))
+    return impl
 
 
 def judge(impl, model):
@@ -484,6 +497,7 @@ def run(ctx):
         sub = [cases[i] for i in sel]
         t1 = time.time()
         impl, err = core.run_lines(exe, [c[0] for c in sub], shards=SHARDS)
+        impl = rerun_silent(ctx, exe, [c[0] for c in sub], impl)
         ctx.notes.append("variant %s: impl %.1fs, %d cases" % (v, time.time() - t1, len(sub)))
         compare(ctx, sub, impl, [model[i] for i in sel], v)
     return finish(ctx)
